@@ -325,7 +325,8 @@ def initStep (ro : Rollout) (step : Step) (c3 : Ctx) : RunOut :=
     else
       let expected := scaledV step.replicas c3.wl.replicas true
       afterRetryCall (if expected ≥ c3.wl.replicas then callTM restoreStableService c3 else some (c3, false, false)) fun c4 =>
-        afterRetryCall (if c4.sub.curIdx = 1 ∧ ¬ ro.disableGen then callTM patchStableService c4 else some (c4, false, false)) enterUpgrade
+        -- (a first step that releases all stable pods keeps the Service restored)
+        afterRetryCall (if c4.sub.curIdx = 1 ∧ ¬ (expected ≥ c3.wl.replicas) ∧ ¬ ro.disableGen then callTM patchStableService c4 else some (c4, false, false)) enterUpgrade
   else
     afterRetryCall (if stepHasTraffic step ∧ c3.sub.curIdx = 1 then callTM patchStableService c3 else some (c3, false, false)) enterUpgrade
 
